@@ -255,6 +255,27 @@ class BodyGen:
                 o["via"] = "context"  # op.get_context().execute(...)
         return o
 
+    def gen_execute_expr(self, table, cols):
+        """op.execute(<insert/update/delete construct>) with bound values of every generated type"""
+        rng = self.rng
+        kind = rng.choice(["insert", "insert", "update", "delete"])
+        o = {"op": "execute_expr", "kind": kind, "table": table["name"], "cols": [{"name": c["name"], "type": c["type"]} for c in cols]}
+        if kind == "insert":
+            rows = []
+            while not rows:
+                rows = self.gen_rows(cols)
+            o["values"] = rows[0]
+        elif kind == "update":
+            cs = [c for c in cols if c["name"] != "id"]
+            if not cs:
+                o["kind"] = "delete"
+            else:
+                c = rng.choice(cs)
+                o["values"] = {c["name"]: gen_value(rng, c["type"], c["nullable"], self.tabs)}
+        if o["kind"] != "insert":
+            o["where_id"] = rng.randint(0, max(1, self.nextid))
+        return o
+
     def bulk(self, table, cols):
         multi = self.rng.random() < 0.7
         # heterogeneous key sets: always with multiinsert=False, with multiinsert=True only when asked for
@@ -327,7 +348,10 @@ class BodyGen:
             elif kind == "bulk":
                 up.append(self.bulk(t, cols))
             elif kind == "execute":
-                up.append(self.gen_execute(t, cols))
+                if not self.lang_only and rng.random() < 0.3:
+                    up.append(self.gen_execute_expr(t, cols))
+                else:
+                    up.append(self.gen_execute(t, cols))
             elif kind == "temp":
                 tt = self.gen_table(rev)
                 up.append({"op": "create_table", "name": tt["name"], "cols": tt["cols"], "checks": tt.get("checks", [])})
